@@ -232,10 +232,87 @@ def json_case(ctx, n, order, tts, kind, receiver, load_order, force_dyn=False):
     s.op(R, 'gc')
 
 
+def autoref_pickle(ctx, n, order, tts, kind, receiver, levels):
+    """pickle round trip through dd.autoref (`Function` roots): implementation and oracle
+    only (the model has the pickle operations for dd.bdd managers; the autoref wrapper
+    converts the roots with `_utils._map_container`).  Roots include a function together
+    with its negation and both constants: every returned Function denotes the dumped
+    function under the same name/position, and each holds exactly one reference."""
+    import os
+    import shutil
+    import tempfile
+    import dd.autoref as _a
+    rng = ctx.rng
+    names = [vname(i) for i in range(n)]
+    src = _a.BDD()
+    for v in sorted(range(n), key=lambda v: order[v]):
+        src.add_var(vname(v))
+    fs = []
+    for t in tts:
+        f = src.false
+        for k in range(1 << n):
+            if (t >> k) & 1:
+                f = f | src.cube({names[j]: bool(T.getbit(k, j, n)) for j in range(n)})
+        fs.append(f)
+    fs = fs + [~fs[0], src.true, src.false]
+    exp = [by_name(src._bdd, f.node, n) for f in fs]
+    roots = list(fs) if kind == 'list' else {f'r{i}': f for i, f in enumerate(fs)}
+    d = tempfile.mkdtemp(prefix='ddverif')
+    case = dict(stream=f'autoref pickle n={n} order={order} roots={kind} recv={receiver} levels={levels}',
+                functions=[hex(t) for t in exp])
+    try:
+        fn = os.path.join(d, 'roots.p')
+        src.dump(fn, roots)
+        if receiver == 'same':
+            tgt = src
+        else:
+            tgt = _a.BDD()
+            if receiver == 'declared-same':
+                for v in sorted(range(n), key=lambda v: order[v]):
+                    tgt.add_var(vname(v))
+            elif receiver == 'declared-other':
+                for v in sorted(range(n), key=lambda v: -order[v]):
+                    tgt.add_var(vname(v))
+        ctx.case(('autoref-pickle', n, tuple(order), tuple(exp), kind, receiver, levels), True)
+        ctx.count('autoref-pickle')
+        try:
+            got = tgt.load(fn, levels=levels)
+        except Exception as e:  # noqa: B902
+            if receiver == 'declared-other' and levels:
+                return          # refused: allowed
+            ctx.violation('C12:pickle-load-failed', f'autoref load raised {type(e).__name__}', case)
+            return
+        gl = list(got.values()) if kind == 'dict' else list(got)
+        if kind == 'dict' and list(got) != list(roots):
+            ctx.violation('C12:pickle-roots', 'root names changed', case)
+        if len(gl) != len(exp):
+            ctx.violation('C12:pickle-roots', 'number of roots changed', case)
+            return
+        for i, (g, t) in enumerate(zip(gl, exp)):
+            if by_name(tgt._bdd, g.node, n) != t:
+                ctx.violation('C12:pickle-wrong-function',
+                              f'autoref load: root {i} denotes {by_name(tgt._bdd, g.node, n):#x}, dumped {t:#x}', case)
+                break
+        # counts: one reference per live Function (the harness holds fs and gl)
+        ext = {1: 1}
+        live = gl + (fs if tgt is src else [])
+        for f in live:
+            ext[abs(f.node)] = ext.get(abs(f.node), 0) + 1
+        bad = oracle.check_table(tgt._bdd, external=ext)
+        if bad:
+            ctx.violation('C12:receiver-not-canonical', f'autoref load: {bad[:2]}', case)
+    finally:
+        shutil.rmtree(d, ignore_errors=True)
+
+
 def run(ctx):
     q = ctx.quick
     rng = ctx.rng
     recvs = ['fresh', 'same', 'declared-same', 'declared-other']
+    for _ in range(12 if q else 150):
+        n = rng.choice([2, 3, 4])
+        autoref_pickle(ctx, n, rng.choice(gen.orders(n)), [rng.getrandbits(1 << n) for _ in range(rng.randint(1, 2))],
+                       rng.choice(['list', 'dict']), rng.choice(recvs), rng.random() < 0.5)
     for n in (2, 3, 4):
         orders = gen.orders(n)
         for _ in range(6 if q else 60):
